@@ -10,6 +10,13 @@
 (* The argument stored with every table value must be exactly the number   *)
 (* the specification needs the function at; otherwise TLC stops with an    *)
 (* assertion failure (machinery error), never with a pass.                 *)
+(*                                                                         *)
+(* r.in.mo / r.in.da are the abstract values of the two operands.  For a   *)
+(* call made after other calls on the same two objects (r.in.seq) they are *)
+(* the values the objects were created with: the clauses of the call judge *)
+(* it against them, so a call that depends on what was called before is    *)
+(* rejected.  r.out.after holds the two objects as they are after the call *)
+(* (clause OperandsUnchanged, against what the call found).                *)
 (***************************************************************************)
 EXTENDS Likelihood, TLC, Json, IOUtils
 CONSTANTS Tau        \* relative tolerance on sums (relative to the sum of the magnitudes of the terms)
@@ -101,7 +108,15 @@ FAns(r, em, da) ==
               F("ResidValue", \A k \in def : CloseTo(o.d[k], val(k), sc(k)))
          ELSE {})
 
-Failed(r) ==
+\* ---- both operands after the call (recorded for every call of the alphabet as r.out.after) ----
+\* (in a call sequence r.in.before is what the objects held when this call began: the clause names the call that changed them)
+FOperands(r) ==
+    IF "after" \in DOMAIN r.out
+    THEN LET b == IF "before" \in DOMAIN r.in THEN r.in.before ELSE [mo |-> r.in.mo, da |-> r.in.da]
+         IN  F("OperandsUnchanged", OperandsUnchanged(b.mo, b.da, r.out.after.mo, r.out.after.da))
+    ELSE {}
+
+FailedCall(r) ==
     IF r.op = "maximises" THEN FMaximises(r)
     ELSE IF r.op \notin {"ll", "ll_per_bin", "theta", "scaled", "ll_multinom", "scale_inv", "lin_resid", "ans_resid"} THEN {"UnknownOp"}
     ELSE
@@ -115,6 +130,8 @@ Failed(r) ==
            [] r.op = "scale_inv"   -> IF NeedTab(r, TabOK(r, em, da) /\ ThetaTabOK(r, em, da)) THEN FScaleInv(r, em, da) ELSE {}
            [] r.op = "lin_resid"   -> FLin(r, em, da)
            [] r.op = "ans_resid"   -> FAns(r, em, da)
+
+Failed(r) == FailedCall(r) \cup FOperands(r)
 
 Init == i = 0
 Next == /\ i < Len(Trace)
